@@ -34,6 +34,8 @@ reg_type = z3.Function('reg_type', Ref, Ref)             # Registration::type of
 reg_pet = z3.Function('reg_path_entry_type', Ref, Ref)
 reg_kind = z3.Function('reg_kind', Ref, Int)
 py_int = z3.Function('py_int', Int, Ref)                 # py::int_(i)
+iter_len = z3.Function('iter_len', Ref, Int)             # number of items an iterable yields (ghost; >= 0)
+iter_item = z3.Function('iter_item', Ref, Int, Ref)      # i-th item an iterable yields (ghost)
 
 _counter = itertools.count()
 
@@ -95,6 +97,12 @@ class PyObj:
     ref: Any                  # z3 Ref expr
     fresh: bool = False       # allocated in this activation and not escaped
     stable: bool = False      # immutable, or owned by a treespec / the engine (not reachable by user callbacks)
+
+
+@dataclass(frozen=True)
+class PySeqIter:              # C++ iterator over a Python iterable (py::iterator)
+    ref: Any                  # the iterable
+    pos: Any                  # number of items already pulled; None = the end sentinel
 
 
 @dataclass(frozen=True)
